@@ -98,4 +98,19 @@ PROPS = {
                                 'ReactionItem)', 'Stream / MultiStream / indexers / mass views'],
                        'stub': ['reactor unit operations (tasks)', 'scheduler / PRNG']},
     },
+    'C20': {
+        'engine': 'sepsim',
+        'quick': {'runs': 2500, 'steps': (12, 35), 'deadline_s': 70, 'chunk': 25, 'seed': 20},
+        'thorough': {'runs': 120000, 'steps': (12, 50), 'deadline_s': 600, 'chunk': 100, 'seed': 1020},
+        'rule': ('one evaluation = one simulated history of separator tasks re-running the helpers (mix_and_split, '
+                 'moisture adjustment, partition, phase_split, chemical_splits, material_balance, vle / lle wrappers '
+                 'with a persistent warm multi_stream) on the same 4-7 outlet streams with leftovers, strict on/off '
+                 'and model faults inside the wrappers; distinct = distinct abstract states (per stream: class, '
+                 'phases, which chemicals are present; which persistent multi-streams exist); non-trivial = at least '
+                 'one helper call'),
+        'assumptions': ['seeded sampling inside the stated input domain', 'oracle arithmetic is dense NumPy'],
+        'components': {'real': ['thermosteam.separations', 'Stream / MultiStream / VLE / LLE solvers',
+                                'mixture models and flexsolve (pass-through seams)'],
+                       'stub': ['separator unit operations (tasks)', 'scheduler / PRNG']},
+    },
 }
